@@ -15,6 +15,7 @@ import Circomspect.Model.SignalAssign
 import Circomspect.Model.Includes
 import Circomspect.Model.Taint
 import Circomspect.Model.CfgReach
+import Circomspect.Model.LessThanPass
 import Circomspect.Lemmas.PathValues
 import Circomspect.Lemmas.PathDegrees
 import Circomspect.Model.SsaBuild
@@ -773,6 +774,33 @@ def propagateCmd (rest : String) : String :=
     s!"{fixV} {fixD} " ++ " ".intercalate anns
   | _ => "bad-op"
 
+/-- `lessthan <curve tag> <stmt>*` with `I:<key>:<L|U|N.<size|->.<size text>>` (an instantiation) and
+    `P:<key>:<port>:<0|1 indexed>:<whole>:<elem,elem,…|->` (an assignment to a port); a key is `<id>~<name>~<acc;acc;…|->` as for
+    `sigassign`. Prints the reported values. -/
+def lessthanCmd (args : List String) : String :=
+  match args with
+  | ctag :: toks =>
+    match Curve.curveOfTag ctag with
+    | none => "bad-op"
+    | some c =>
+      let accOf (t : String) : SignalAssign.Acc :=
+        if t.startsWith "P" then .port (t.drop 1).toString
+        else let v := (t.drop 1).toString; .idx (if v == "-" then none else some v)
+      let keyOf (t : String) : LessThanPass.Key := match t.splitOn "~" with
+        | [i, n, a] => { id := i, name := n, acc := if a == "-" then [] else (a.splitOn ";").map accOf }
+        | _ => { id := t, name := t, acc := [] }
+      let instOf (t : String) : LessThanPass.Inst := match t.splitOn "." with
+        | ["L"] => .lessThan
+        | ["N", sz, txt] => .num2bits sz.toNat? txt
+        | _ => .unknown
+      let ss : List LessThanPass.Stmt := toks.map (fun t => match t.splitOn ":" with
+        | ["I", k, i] => .inst (keyOf k) (instOf i)
+        | ["P", k, port, ix, whole, elems] => .input (keyOf k) port (ix == "1") whole (if elems == "-" then none else some (elems.splitOn ","))
+        | _ => .other)
+      let rs := LessThanPass.reported c ss
+      if rs.isEmpty then "-" else ",".intercalate rs
+  | _ => "bad-op"
+
 /-- `sigassign <kind> <stmt>*` with `A:<s>-<e>:<key>:<0|1>` and `C:<s>-<e>:<key,key,...|->:<target key|->`; a key is
     `<id>~<name>~<acc;acc;…|->` with `acc` = `P<port>` or `I<value|->` -/
 def sigassignCmd (args : List String) : String :=
@@ -950,6 +978,7 @@ def handle (line : String) : String :=
   | "c11" :: args => c11Cmd args
   | "runner" :: args => runnerCmd args
   | "sigassign" :: args => sigassignCmd args
+  | "lessthan" :: args => lessthanCmd args
   | "includes" :: args => includesCmd args
   | "taint" :: args => taintCmd args
   | "regions" :: args => regionsCmd args
